@@ -9,6 +9,7 @@ Correspondence streams (real code vs the Lean driver executing those very defini
   objective.table   real gridsearch on every class kind x every objective name vs model `resolveObjective`
   grid.scripted     real GAM.gridsearch on a LinearGAM subclass whose `fit` is scripted (scores incl. ties, inf, nan,
                     ValueError skips): grid shapes (valid and rejected), candidate multiset, loop, keep_best, return value
+  search.data       fitted models reject X with another number of columns (model `dataCheck`)
   search.real       real gridsearch with real fits (LinearGAM unknown/known scale, PoissonGAM with exposure, LogisticGAM,
                     GammaGAM): candidates, skipped ones, winner, self afterwards vs model `gridsearch`;
                     oracle: independent cold fits of the Cartesian product computed with itertools.
@@ -53,11 +54,6 @@ KNOWN = {
         "spline_order=[1, 3]) fits (6,1), (6,3) only; with the keywords in the other order (3,1) is fitted too; "
         "LinearGAM(s(0, n_splines=3, spline_order=1)).fit(X, y) works",
         'gridsearch fits exactly the Cartesian product of the per-parameter grids'),
-    'warm start': (
-        'C10-warm-start-divergence-skips-candidate',
-        "LogisticGAM(s(0, n_splines=7) + s(1, n_splines=7)).fit(X, y).gridsearch(X, y, spline_order=[5, 0, 9, 1]) skips spline_order=0 "
-        "('PIRLS optimization has diverged' from the previous model's coef_), gridsearch(spline_order=[1, 0]) fits it",
-        'gridsearch fits exactly the Cartesian product of the per-parameter grids (warm starts do not change the outcome)'),
     'plural setter': (
         'C10-plural-setter-attributeerror',
         "LinearGAM(s(0) + l(1)).gridsearch(X, y, n_splines=[5, 7]) raises AttributeError: 'LinearTerm' object has no attribute 'n_splines'",
@@ -554,21 +550,13 @@ def run_real_case(spec):
         gotkeys = sorted(json.dumps(md['key']) for md in cand_models)
         wantkeys = wk_all
         if gotkeys != wk_all and not [k for k in gotkeys if k not in wk_all]:
-            # Valid candidates are missing.  Two mechanisms seen on the unchanged tree are recognised *exactly* (and
-            # reported as suspected defects, see the final report); anything else stays a failing input.
+            # Valid candidates are missing.  One mechanism is a recorded known finding and is recognised *exactly*; anything
+            # else (e.g. a candidate lost to its warm start, repaired in /repo 3531369 + b32bdf3) stays a failing input.
             #  (b) joint n_splines / spline_order grids: the parameters are set one after the other, a valid pair that is
-            #      invalid half-way raises ValueError and is skipped;
-            #  (c) the warm start (coef_ of the previously fitted model) makes PIRLS diverge where a cold start converges;
-            #      reproduced here through the public API: fresh model, set_params(coef_=..., force=True), fit.
+            #      invalid half-way raises ValueError and is skipped
             left = list(gotkeys)
-            obj_by_key = {}
-            for md, (m, _) in zip(models, items):
-                if not md['is_self']:
-                    obj_by_key.setdefault(json.dumps(md['key']), []).append(m)
-            last = gam if spec['fitted'] else None
-            last_coef = np.array([common.bits2f(b) for b in pre['coef']]) if (spec['fitted'] and pre is not None) else None
             reduced = []
-            n_b = n_c = 0
+            n_b = 0
             for cnd, cand in zip(cold, want):
                 if cnd['score'] is None:
                     continue
@@ -576,37 +564,14 @@ def run_real_case(spec):
                 if k in left:
                     left.remove(k)
                     reduced.append(k)
-                    if obj_by_key.get(k):
-                        last_coef = obj_by_key[k].pop(0).coef_
-                    continue
-                if seq_invalid(cand):
+                elif seq_invalid(cand):
                     n_b += 1
-                    continue
-                if last_coef is not None:
-                    over = {p: [float(v) if p == 'lam' else int(v) for v in part] for p, part in zip(params, cand)}
-                    if 'fit_intercept' in over and not over['fit_intercept'][0]:
-                        over = dict(over, fit_intercept=[1])     # as fitted in the search (suspected defect (a))
-                    try:
-                        c3 = build_model(pygam, spec, over)
-                        c3.set_params(coef_=np.array(last_coef, dtype=float), force=True)
-                        with quiet():
-                            c3.fit(X, y, **fkw)
-                        reduced.append(k)       # fits fine also when warm-started: unexplained
-                    except ValueError as ex:
-                        if type(ex).__name__ in ('OptimizationError', 'NotPositiveDefiniteError'):
-                            n_c += 1
-                        else:
-                            reduced.append(k)
                 else:
                     reduced.append(k)
-            if sorted(reduced) == gotkeys:
+            if sorted(reduced) == gotkeys and n_b:
                 wantkeys = sorted(reduced)
-                if n_b:
-                    res['suspected'].append('joint n_splines/spline_order grid: valid candidates skipped because the parameters are set one '
-                                            'after the other (%d of %d)' % (n_b, len(wk_all)))
-                if n_c:
-                    res['suspected'].append('warm start: valid candidates skipped because PIRLS diverges from the previous '
-                                            "model's coefficients (%d of %d)" % (n_c, len(wk_all)))
+                res['suspected'].append('joint n_splines/spline_order grid: valid candidates skipped because the parameters are set one '
+                                        'after the other (%d of %d)' % (n_b, len(wk_all)))
         if res['returned'] == 'self' and wantkeys:
             orc.append(dict(kind='return_scores=True returned self although candidates can be fitted'))
         elif wantkeys != gotkeys:
@@ -1077,6 +1042,13 @@ def gen_real_specs(ctx, lits):
                           grids=[dict(param='n_splines', desc=dict(kind='1d', values=[3, 6], container='list')),
                                  dict(param='spline_order', desc=dict(kind='1d', values=[1, 3], container='list'))],
                           weights=False, exposure=False, tol=1e-8, max_iter=200))
+    # a candidate that diverges from the previous model's coefficients but converges from a cold start (was skipped before
+    # /repo 3531369 + b32bdf3): must be fitted
+    specs.append(dict(cls='LogisticGAM', scale=None, terms=[dict(kind='s', feature=0, n_splines=7, spline_order=3, lam=0.3),
+                                                           dict(kind='s', feature=1, n_splines=7, spline_order=3, lam=0.6)],
+                      n=120, d=3, data_seed=978853, fitted=True, keep_best=False, return_scores=True, objective=None,
+                      grids=[dict(param='spline_order', desc=dict(kind='1d', values=[5, 0, 9, 1], container='list'))],
+                      weights=False, exposure=False, tol=1e-8, max_iter=200))
     # suspected defect (C14 plural setter): n_splines / spline_order grids on models holding l() / f() terms
     for k in range(2):
         specs.append(dict(cls='LinearGAM', scale=None, terms=[dict(kind='s', feature=0, n_splines=6, spline_order=3, lam=0.6),
@@ -1331,7 +1303,7 @@ def make_scripted(pygam):
                 # the fit before the search: a real fit (validates and compiles everything), then the scripted labels
                 pygam.LinearGAM.fit(self, X, y, weights)
             self.coef_ = np.array([float(k)])
-            self.statistics_ = dict(out)
+            self.statistics_ = dict(out, n_samples=len(y), m_features=np.asarray(X).shape[1])
             return self
     return ScriptedGAM
 
@@ -1493,6 +1465,8 @@ def judge_scripted(ctx, st, spec, res, sout, pout, pygam, Scripted):
         if res['exc'] != 'ValueError':
             bad = dict(kind='mismatching / unknown objective not rejected with ValueError', got=res['exc'] or 'accepted')
     elif want is not None and all(p in PLURALS or p in SCALARS for p in params):
+        if res['exc'] is not None:
+            bad = dict(kind='valid request raised', got=res['exc'], msg=res.get('msg'))
         if res['exc'] is None:
             wk = sorted(json.dumps(key_json(c)) for c in want)
             gk = sorted(json.dumps(key_json(c)) for c in res['calls'])
@@ -1519,6 +1493,8 @@ def judge_scripted(ctx, st, spec, res, sout, pout, pygam, Scripted):
                 if bad is None and spec['keep_best'] and recorded:
                     vals = [v for v in recorded.values() if not math.isnan(v)]
                     below = [v for v in vals if v < float('inf')] if not spec['fitted'] else vals
+                    if below and res['self_label'] is None:
+                        bad = dict(kind='keep_best left the model unfitted although candidates with a finite score were fitted')
                     if below and res['self_label'] is not None:
                         mn = min(vals)
                         sl = res['self_label']
@@ -1576,23 +1552,62 @@ def judge_scripted(ctx, st, spec, res, sout, pout, pygam, Scripted):
                     mism.append('recorded (model, score) pairs differ: impl %s model %s' % (im2[:6], mm[:6]))
             if int(so['nmodels']) == 0:
                 ctx.count(st + ' no models fitted', 1)
+            base_label = -1 if spec['fitted'] else None
             if spec['keep_best'] and int(so['nmodels']) > 0:
-                want_label = -1 if so['self'] == 'self' else int(so['self'][1:])
-                ctx.count(st + ' winner', 'self' if so['best'] == 'self' else 'candidate')
-                if spec['fitted'] or so['self'] != 'self':
-                    if res['self_label'] != want_label:
-                        mism.append('self afterwards holds fit call %s, model %s' % (res['self_label'], so['self']))
-                    elif want_label >= 0 and plan[0] == 'ok' and res['calls'][want_label] != res['self_key']:
-                        mism.append('self afterwards has hyper-parameters %s, its fit call had %s' % (res['self_key'], res['calls'][want_label]))
-            else:
-                want_label = -1 if spec['fitted'] else None
+                want_label = base_label if so['self'] == 'self' else int(so['self'][1:])
+                ctx.count(st + ' winner', so['best'] if so['best'] in ('self', 'none') else 'candidate')
                 if res['self_label'] != want_label:
+                    mism.append('self afterwards holds fit call %s, model %s' % (res['self_label'], so['self']))
+                elif want_label is not None and want_label >= 0 and plan[0] == 'ok' and res['calls'][want_label] != res['self_key']:
+                    mism.append('self afterwards has hyper-parameters %s, its fit call had %s' % (res['self_key'], res['calls'][want_label]))
+                elif so['self'] == 'self' and res['self_key'] != res['pre_key']:
+                    mism.append('hyper-parameters of self changed although self is the winner / there is no winner')
+            else:
+                if res['self_label'] != base_label:
                     mism.append('self must be unchanged, holds fit call %s' % (res['self_label'],))
                 if res['self_key'] != res['pre_key']:
                     mism.append('hyper-parameters of self changed without keep_best')
     if mism:
         ctx.disagree(st, case, dict(exc=res['exc'], returned=res.get('returned'), models=res.get('models'), self_label=res.get('self_label')),
                      dict(search=sout[:400], plan=pout[:400]), '; '.join(mism))
+
+
+# ------------------------------------------------------------------------------------------------
+# stream 5: the data check that depends on the state of the model
+# ------------------------------------------------------------------------------------------------
+def run_data(ctx, pygam):
+    st = 'search.data'
+    ctx.stream(st, 'gridsearch(X with k columns) on fitted / unfitted models: exception class vs model dataCheck')
+    cases = []
+    for cls in ('LinearGAM', 'LogisticGAM', 'PoissonGAM'):
+        for fitted in (False, True):
+            for ncols in (1, 2, 3, 4, 6):
+                cases.append((cls, fitted, ncols))
+    ops = ['C10 data %d 3 %d' % (1 if f else 0, k) for _, f, k in cases]
+    outs = ctx.driver.run(ops)
+    for (cls, fitted, ncols), out in zip(cases, outs):
+        spec = dict(cls=cls, scale=None, terms=[dict(kind='s', feature=0, n_splines=5, spline_order=3, lam=0.6)], n=50, d=3, data_seed=5,
+                    fitted=fitted, keep_best=True, return_scores=True, objective='auto',
+                    grids=[dict(param='lam', desc=dict(kind='1d', values=[0.5, 5.0], container='list'))], weights=False, exposure=False,
+                    tol=1e-6, max_iter=100)
+        X, y, w, e = make_data(spec)
+        gam = build_model(pygam, spec)
+        if fitted:
+            with quiet():
+                gam.fit(X, y)
+        rs = np.random.RandomState(ncols)
+        X2 = X[:, :ncols] if ncols <= 3 else np.hstack([X, rs.rand(X.shape[0], ncols - 3)])
+        try:
+            call_gridsearch(spec, gam, X2, y, None, None, True, grids_kwargs(spec))
+            impl = 'ok'
+        except Exception as ex:   # noqa
+            impl = type(ex).__name__
+        model = out.split(':')[0]
+        ctx.count(st + ' outcome', impl)
+        ctx.case(st, dict(cls=cls, fitted=fitted, ncols=ncols), nontrivial=(ncols != 3), sample=dict(cls=cls, fitted=fitted, ncols=ncols))
+        if impl != model:
+            ctx.disagree(st, dict(cls=cls, fitted=fitted, columns=ncols, fitted_on_columns=3), impl, out,
+                         'data check differs from the model (a fitted model must reject X with another number of columns)')
 
 
 # ------------------------------------------------------------------------------------------------
@@ -1612,6 +1627,7 @@ def run(ctx):
                            '(nan, inf) is executed with Lean Float in the driver, the theorems are over a linear order')
     run_combine(ctx, pygam, lits)
     run_scripted(ctx, pygam, lits)
+    run_data(ctx, pygam)
     run_real(ctx, pygam, lits)
     if os.environ.get('C10_DEBUG'):
         json.dump(dict(failing=ctx.failing, broken=ctx.broken), open(os.environ['C10_DEBUG'], 'w'), indent=1, default=str)
